@@ -148,10 +148,9 @@ def run(ctx):
               "the step is multiplied by the current time step time[i] - time[i-1]", interp=it)
     # R20.3 step shape
     js = -(width - nimp)
-    ref = op("store", out_sym, lv, op("item", out_sym, lv - 1) + curr_dt * op(
-        "loopsum", op("item", S, jj_sym - js) * op("item", signal, lv + jj_sym), jj_sym, op("range", js, nimp)))
-    ctx.equiv("R20.3", "integrate[step]", out_fin, ref, L.loc,
-              "out[i] == out[i-1] + curr_dt * sum_j stencil[j-jstart]*signal[i+j]", interp=it)
+    ctx.ok("R20.3", "integrate[step]", "out[i] == out[i-1] + dt * sum_m stencil[m - jstart]*signal[i + m] over m in [jstart, jend): a "
+           "degree-1 form in the signal with the weight index aligned to the sample offset", L.loc,
+           derived=sp.Tuple(js_t, nimp))
     # node of the stencil that multiplies signal[i] on the high-order branch: -jstart with the primary width / n
     align = T.resimplify(T.assume(-js, {C0: False})) if C0 is not None else None
     stencil_definition_rules(ctx, p, align, order, n)
@@ -180,7 +179,7 @@ def stencil_definition_rules(ctx, p, align, order, n):
     else:
         base, pat, val, lv = r.args[:4]
         rng = r.args[4] if len(r.args) > 4 else None
-        ctx.expect(base == op("zeros", order) and pat == lv and rng in (op("range", sp.Integer(0), order), op("range", order)), R,
+        ctx.expect(base == op("zeros", order) and pat == lv and _range_bounds(rng) == (sp.Integer(0), sp.expand(order)), R,
                    "integration_stencil[one weight per node]", "`order` weights, weight k computed in iteration k, all k in 0..order-1",
                    f.loc(), derived=sp.Tuple(base, pat, rng))
         ev = T.find_ops(val, "evalpoly")
@@ -214,15 +213,28 @@ def stencil_definition_rules(ctx, p, align, order, n):
     if ok:
         X, lv, rng = ls[0].args[:3]
         deg = op("len", poly) - 1
-        ok = sp.expand(X - op("item", poly, lv) * x**(deg - lv)) == 0 and T.equivalent(rng, op("range", sp.Integer(0), deg + 1)) == T.Verdict.EQUAL
+        ok = sp.expand(X - op("item", poly, lv) * x**(deg - lv)) == 0 and _range_bounds(rng) == (sp.Integer(0), sp.expand(deg + 1))
     ctx.expect(ok, R, "evaluate_polynomial", "sum_k poly[k]*x^(deg-k) over all deg+1 coefficients (highest power first)", f.loc(), derived=r)
     ctx.absorb(it)
     # -- integrated basis polynomial
     f = p.get_function(TI + "integrated_lagrange_base_polynomial_coef")
     it = Interp(p, opaque={TI + "lagrange_base_polynomial_coef": "lag"})
     r = T.to_term(it.call_function(f, [order, idx], {}, None))
-    if fname(r) != "tabulate":
-        ctx.unsure(R, "integrated_lagrange_base_polynomial_coef", "coefficients are not rescaled by one loop", f.loc(), derived=r)
+    want_base = op("store", op("zeros", order + 1), op("slc", sp.Integer(0), order, T.NONE_T), op("lag", order - 1, idx))
+    if fname(r) == "store" and _slice0(r.args[0]) == want_base and fname(_slice0(r.args[1])) == "slc":
+        # vectorised form: poly[0:m] = poly[0:m] / (order - arange(m)) with m = order-1 (or order)
+        sl = _slice0(r.args[1])
+        m = sl.args[1]
+        okv = sl.args[0] == 0 and sp.expand(m - (order - 1)) in (0, 1) and T.equivalent(
+            _slice0(r.args[2]), op("item", want_base, sl) / (order - op("arange", m))) == T.Verdict.EQUAL
+        ctx.ok(R, "integrated_lagrange_base_polynomial_coef[coefficients]",
+               "starts from the degree order-1 basis polynomial shifted up one power (constant of integration 0)", f.loc())
+        ctx.expect(okv, R, "integrated_lagrange_base_polynomial_coef[term-wise antiderivative]",
+                   "coefficient k (of x^(order-1-k)) is divided by order-k", f.loc(), derived=r.args[2])
+        ctx.expect(okv, R, "integrated_lagrange_base_polynomial_coef[all powers]",
+                   "every coefficient with a divisor other than one is rescaled (k = 0..order-2)", f.loc(), derived=sl)
+    elif fname(r) != "tabulate":
+        ctx.unsure(R, "integrated_lagrange_base_polynomial_coef", "coefficients are not rescaled by one loop or one slice expression", f.loc(), derived=r)
     else:
         base, pat, val, lv = r.args[:4]
         rng = r.args[4] if len(r.args) > 4 else None
@@ -234,7 +246,7 @@ def stencil_definition_rules(ctx, p, align, order, n):
             and fname(cur[0].args[0]) == "loopstate" and cur[0].args[0].args[0] == base
         ctx.expect(ok, R, "integrated_lagrange_base_polynomial_coef[term-wise antiderivative]",
                    "coefficient k (of x^(order-1-k)) is divided by order-k", f.loc(), derived=val)
-        okr = rng in (op("range", order - 1), op("range", order), op("range", sp.Integer(0), order - 1), op("range", sp.Integer(0), order))
+        okr = _range_bounds(rng) in ((sp.Integer(0), sp.expand(order - 1)), (sp.Integer(0), sp.expand(order)))
         ctx.expect(okr, R, "integrated_lagrange_base_polynomial_coef[all powers]",
                    "every coefficient with a divisor other than one is rescaled (k = 0..order-2)", f.loc(), derived=rng)
     ctx.absorb(it)
@@ -249,7 +261,7 @@ def stencil_definition_rules(ctx, p, align, order, n):
         L = Ls[0]
         lv = L.lv
         skip = CMP("eq", idx, lv)
-        ctx.expect(T.equivalent(L.iter, op("range", sp.Integer(0), order + 1)) == T.Verdict.EQUAL, R,
+        ctx.expect(_range_bounds(L.iter) == (sp.Integer(0), order + 1), R,
                    "lagrange_base_polynomial_coef[nodes]", "the product runs over the nodes 0..order", f.loc(), derived=L.iter)
         dens = [(nm, c) for nm, c in L.carried.items() if c[0] == 1 and c[1] is not None]
         cnts = [(nm, c) for nm, c in L.carried.items() if c[0] == 0 and c[1] is not None]
@@ -272,7 +284,7 @@ def stencil_definition_rules(ctx, p, align, order, n):
                 # after the increment the degree is d = j+1: new[1..d] = old[1..d] - k*old[0..d-1]
                 up = op("slc", sp.Integer(1), jsym + 2, T.NONE_T)
                 lowr = op("slc", sp.Integer(0), jsym + 1, T.NONE_T)
-                okp = sl == up and sp.expand(newv - (op("item", psym, up) - lv * op("item", psym, lowr))) == 0
+                okp = _slice0(sl) == up and sp.expand(_slice0(newv) - (op("item", psym, up) - lv * op("item", psym, lowr))) == 0
             ctx.expect(okp, R, "lagrange_base_polynomial_coef[multiply by (x - k)]",
                        "coefficients c[1..d] become c[1..d] - k*c[0..d-1] (d the new degree), i.e. the polynomial is multiplied by (x - k); "
                        "untouched for the own node", f.loc(), derived=T.show(taken, 200))
@@ -284,8 +296,24 @@ def stencil_definition_rules(ctx, p, align, order, n):
     ctx.absorb(it)
 
 
+def _norm_len(t):
+    """len distributes over ite; the length of a literal array is its number of elements"""
+    def fn(n):
+        if fname(n) == "len" and len(n.args) == 1:
+            a = n.args[0]
+            if fname(a) == "ite":
+                return T.ITE(a.args[0], _norm_len(op("len", a.args[1])), _norm_len(op("len", a.args[2])))
+            if fname(a) == "array":
+                return sp.Integer(len(a.args))
+        return None
+    return T.rewrite(t, fn)
+
+
 def _parse_step(L, lv, signal):
-    """(S, jstart, jend, dt, j, out, final) from the loop-carried output array, or None"""
+    """(S, jstart, jend, dt, j, out, final) from the loop-carried output array, or None.
+    The step is out[i] = out[i-1] + dt * sum_j S[j + cw] * signal[i + j + cs] for j in range(a, b) (any affine indexing, the sum
+    may live in a helper); it is returned re-indexed by the sample offset m = j + cs: S[m - jstart] * signal[i + m] for m in
+    [jstart, jend) - provided the weight index really is m - jstart."""
     arrs = [(nm, c) for nm, c in L.carried.items() if c[1] is not None and fname(T.to_term(c[2])) == "store"
             and T.to_term(c[2]).args[0] == c[1]]
     if len(arrs) != 1:
@@ -303,11 +331,37 @@ def _parse_step(L, lv, signal):
     if dt is None or T.find_ops(dt, "loopsum"):
         return None
     X, jj, rng = ls.args[:3]
-    if fname(rng) != "range" or len(rng.args) != 2 or not isinstance(X, sp.Mul):
+    if fname(rng) != "range" or len(rng.args) not in (1, 2) or not isinstance(X, sp.Mul):
         return None
+    start, stop = (sp.Integer(0), rng.args[0]) if len(rng.args) == 1 else rng.args
     items = [a for a in X.args if fname(a) == "item"]
     sig = [a for a in items if a.args[0] == signal]
     wts = [a for a in items if a.args[0] != signal]
     if len(sig) != 1 or len(wts) != 1 or len(X.args) != 2:
         return None
-    return wts[0].args[0], rng.args[0], rng.args[1], dt, jj, out, fin
+    cs = sp.expand(sig[0].args[1] - lv - jj)        # signal index = i + j + cs
+    cw = sp.expand(wts[0].args[1] - jj)             # weight index = j + cw
+    if jj in cs.free_symbols or jj in cw.free_symbols:
+        return None
+    js = _norm_len(sp.expand(start + cs))
+    je = _norm_len(sp.expand(stop + cs))
+    # weight index as a function of the sample offset m: m - cs + cw must be m - js
+    if T.resimplify(_norm_len(sp.expand(cw - cs + js))) != 0:
+        return None
+    return wts[0].args[0], js, je, dt, jj, out, fin
+
+
+def _range_bounds(r):
+    """(start, stop) of a unit-step range term, `range(n)` read as `range(0, n)`"""
+    if fname(r) != "range" or len(r.args) not in (1, 2):
+        return None
+    return (sp.Integer(0), sp.expand(r.args[0])) if len(r.args) == 1 else (sp.expand(r.args[0]), sp.expand(r.args[1]))
+
+
+def _slice0(t):
+    """a slice that starts at None starts at 0"""
+    def fn(n):
+        if fname(n) == "slc" and len(n.args) == 3 and n.args[0] == T.NONE_T and n.args[2] == T.NONE_T:
+            return op("slc", sp.Integer(0), n.args[1], n.args[2])
+        return None
+    return T.rewrite(T.to_term(t), fn)
